@@ -200,3 +200,93 @@ Print Assumptions C04_chk_same_assembly_complete.
 Print Assumptions C04_chk_assembly_complete.
 Print Assumptions C04_chk_assembly_same.
 Print Assumptions C04_nonvacuous.
+
+(* ==== end to end for the DIRECT pipeline (work package e2e) ======================================================== *)
+(* The direct model pipeline produces THE assembly of its reads: for every K >= 4 (the guard of C05's filter_spec: the
+   bucket of a k-mer reads its first four bases), all reads over {A,C,G,T}, every threshold, both strandedness values,
+   both join modes and every duplicate-free iteration order [order] of the k-mer hash table for which the model returns a
+   graph, that graph has exactly the retained k-mers and exactly the links of the reads (Layer S: [retained],
+   [spec_links]), its nodes are exactly the maximal unbranched paths of its own link set, and every node carries the
+   ids / colour of its k-mers.  No checker is involved.
+   [NoDup order] is forced by the MODEL only: [order] is the oracle input standing for BoomHashMap2's iteration order,
+   which in the real code always lists every key exactly once; a list with a repeated key would make [reorder] build a
+   table with a duplicated entry.
+   Proof: Proofs/E2eObs.v (which extension bits the observations of a k-mer carry) -> Proofs/E2eTable.v (the table
+   handed to the compressor, on Layer S: C05 filter_spec + count_filter_set + pruning + reorder) -> Proofs/E2eSym.v (such
+   a table meets C01's hypotheses tbl_ok / exts_sym and C03's exts_sym_pal; inner steps of nodes are merges) ->
+   Proofs/E2eGraph.v (k-mers, links, unbranched, maximal via C02 no_mergeable_pair_across, payloads) -> Proofs/E2eDirect.v. *)
+From DBG Require Import Proofs.E2eDirect Proofs.E2eCorollaries.
+
+Theorem C04_direct_assembly : forall K st thr mode (lreads : list lread) order g,
+  4 <= K -> Forall (fun r => wf_dna (fst r)) lreads -> NoDup order ->
+  direct K st thr mode 0 lreads order = Some g ->
+  assembly_of K st thr mode lreads g.
+Proof. exact direct_assembly. Qed.
+Print Assumptions C04_direct_assembly.
+
+(* ... and it never panics when [order] lists the keys of the filtered table (= the retained k-mers) in any order *)
+Theorem C04_direct_total : forall K st thr mode (lreads : list lread) order,
+  4 <= K -> Forall (fun r => wf_dna (fst r)) lreads ->
+  Permutation order (retained K st thr (map fst lreads)) ->
+  exists g, direct K st thr mode 0 lreads order = Some g.
+Proof. exact direct_total. Qed.
+Print Assumptions C04_direct_total.
+
+Theorem C04_direct_correct : forall K st thr mode (lreads : list lread) order,
+  4 <= K -> Forall (fun r => wf_dna (fst r)) lreads ->
+  Permutation order (retained K st thr (map fst lreads)) ->
+  exists g, direct K st thr mode 0 lreads order = Some g /\ assembly_of K st thr mode lreads g.
+Proof. exact direct_correct. Qed.
+Print Assumptions C04_direct_correct.
+
+(* C04_sharded_eq_direct_partial without the proviso on the direct side.  STILL MISSING for the full statement: that
+   the sharded pipeline's output is the assembly of the reads (C01/C02 per shard + C09 on the combined graph). *)
+Theorem C04_sharded_eq_direct_partial2 : forall maxlen K P perm st thr mode variant (lreads : list lread) orders order bs gs g_s g_d,
+  4 <= K -> Forall (fun r => wf_dna (fst r)) lreads -> NoDup order ->
+  sharded maxlen K P perm st thr mode variant lreads orders = Some (bs, gs, g_s) ->
+  direct K st thr mode 0 lreads order = Some g_d ->
+  assembly_of K st thr mode lreads g_s ->
+  same_assembly K st mode g_s g_d.
+Proof. exact sharded_eq_direct_partial2. Qed.
+Print Assumptions C04_sharded_eq_direct_partial2.
+
+(* non-vacuity: the guards hold on the example above (threshold 2: pruning active; order = descending keys), the model
+   returns a graph of two nodes; the same reads stranded with the colour-equality join (mode 1), threshold 1: two nodes;
+   unstranded, mode 1, threshold 1: four nodes, one of them the palindrome CATG on its own *)
+Definition ex4s_order : list dna := Eval vm_compute in rev (retained 4 true 1 (map fst ex4_reads)).
+Definition ex4u_order : list dna := Eval vm_compute in rev (retained 4 false 1 (map fst ex4_reads)).
+Example C04_direct_nonvacuous :
+  4 <= 4 /\ Forall (fun r => wf_dna (fst r)) ex4_reads /\
+  Permutation ex4_order (retained 4 false 2 (map fst ex4_reads)) /\ NoDup ex4_order /\
+  (exists g, direct 4 false 2 0 0 ex4_reads ex4_order = Some g /\ length g = 2) /\
+  Permutation ex4s_order (retained 4 true 1 (map fst ex4_reads)) /\
+  (exists g, direct 4 true 1 1 0 ex4_reads ex4s_order = Some g /\ length g = 2) /\
+  Permutation ex4u_order (retained 4 false 1 (map fst ex4_reads)) /\
+  (exists g, direct 4 false 1 1 0 ex4_reads ex4u_order = Some g /\ map nd_seq g = [[0;1;2;2;3;1;1;0]; [3;2;2;3;0]; [1;0;3;2]; [0;3;2;2]]%N).
+Proof.
+  assert (P : Permutation ex4_order (retained 4 false 2 (map fst ex4_reads))).
+  { replace ex4_order with (rev (retained 4 false 2 (map fst ex4_reads))) by (vm_compute; reflexivity).
+    symmetry. apply Permutation_rev. }
+  split; [auto|]. split; [repeat constructor; cbv; auto|]. split; [exact P|].
+  split; [eapply Permutation_NoDup; [symmetry; exact P | apply retained_nodup]|].
+  split; [eexists; split; vm_compute; reflexivity|].
+  split; [replace ex4s_order with (rev (retained 4 true 1 (map fst ex4_reads))) by (vm_compute; reflexivity);
+          symmetry; apply Permutation_rev|].
+  split; [eexists; split; vm_compute; reflexivity|].
+  split; [replace ex4u_order with (rev (retained 4 false 1 (map fst ex4_reads))) by (vm_compute; reflexivity);
+          symmetry; apply Permutation_rev|].
+  eexists; split; vm_compute; reflexivity.
+Qed.
+Print Assumptions C04_direct_nonvacuous.
+
+(* the guard [NoDup order] cannot be dropped from C04_direct_assembly (for the MODEL: [order] is an oracle input): with the
+   key ACCG listed twice the model builds a table with a duplicated entry and returns a graph that is not the assembly *)
+Example C04_direct_order_guard_needed :
+  exists (lreads : list lread) order g, Forall (fun r => wf_dna (fst r)) lreads /\ length order = 2 /\
+    direct 4 false 1 0 0 lreads order = Some g /\ ~ assembly_of 4 false 1 0 lreads g.
+Proof.
+  exists [([0;1;2;2;3], 0)]%N, [[0;1;1;2]; [0;1;1;2]]%N. eexists. split; [repeat constructor; cbv; auto|].
+  split; [reflexivity|]. split; [vm_compute; reflexivity|].
+  intro H. apply chk_assembly_complete in H. vm_compute in H. discriminate H.
+Qed.
+Print Assumptions C04_direct_order_guard_needed.
